@@ -112,7 +112,7 @@ package ro
 //@   ensures [winner-delivers-then-tears-down|C01,C03,C06,C14] cas_ok(status) && s.destination != nil ==> trace(destination.ErrorWithContext(ctx, err), Subscription.Unsubscribe())
 //@   ensures [winner-nil-destination|C03] cas_ok(status) && s.destination == nil ==> trace(Subscription.Unsubscribe())
 //@   ensures [loser-is-dropped|C01] !cas_ok(status) ==> trace(call.NewNotificationError(err), hook.OnDroppedNotification(ctx, _), Subscription.Unsubscribe())
-//@   ensures [teardown-outside-producer-lock|C03,C06] notheldat(mu, Subscription.Unsubscribe)
+//@   ensures [teardown-outside-producer-lock|C03,C06,C14] notheldat(mu, Subscription.Unsubscribe)
 //@   ensures [terminal-waits-for-lock|C02,C07] !tried(mu) && count(lock.mu) == 1
 //@   ensures [closed-on-return|C06] s.status != 0
 
@@ -125,7 +125,7 @@ package ro
 //@   ensures [winner-delivers-then-tears-down|C01,C03,C06,C14] cas_ok(status) && s.destination != nil ==> trace(destination.CompleteWithContext(ctx), Subscription.Unsubscribe())
 //@   ensures [winner-nil-destination|C03] cas_ok(status) && s.destination == nil ==> trace(Subscription.Unsubscribe())
 //@   ensures [loser-is-dropped|C01] !cas_ok(status) ==> trace(call.NewNotificationComplete(), hook.OnDroppedNotification(ctx, _), Subscription.Unsubscribe())
-//@   ensures [teardown-outside-producer-lock|C03,C06] notheldat(mu, Subscription.Unsubscribe)
+//@   ensures [teardown-outside-producer-lock|C03,C06,C14] notheldat(mu, Subscription.Unsubscribe)
 //@   ensures [terminal-waits-for-lock|C02,C07] !tried(mu) && count(lock.mu) == 1
 //@   ensures [closed-on-return|C06] s.status != 0
 
